@@ -173,6 +173,10 @@ class Placeholders(Suite):
             dict(obj=['{A}/x', {'k': '{B}{C}', 'u': '{D}'}], repl={'A': 'a', 'B': 'b', 'C': 3}, repl2={}, mode='class_attrs'),
             dict(obj={'k': ['{X}', {'m': {'n': 'a{X}'}}]}, repl={'X': 'v'}, repl2={}, mode='dict', mappings='ordered'),
             dict(obj=[{'k': '{X}'}], repl={'X': 'v'}, repl2={}, mode='attrs', mappings='attr'),
+            # undefined names that happen to be attributes of every mapping (or of every object) stay as they are
+            dict(obj=['SELECT {keys} FROM {DIR}/t', '{items}', '{DIR}/{values}.csv', {'k': '{get}{copy}{pop}{update}'}, '{__class__}{__doc__}'],
+                 repl={'DIR': '/d'}, repl2={}, mode='dict'),
+            dict(obj=['{keys}', '{values}'], repl={'values': 'defined'}, repl2={}, mode='dict'),
         ]
 
     def gen(self, rng, tier):
@@ -446,9 +450,86 @@ class UsedConfigObjects(Suite):
         return repr(case)
 
 
+PARAMFORMS_SRC = """
+from pathlib import Path
+from taskchain import Task, Parameter
+
+class Abc(Task):
+    class Meta:
+        parameters = [Parameter('plain'), Parameter('path', dtype=Path), Parameter('text', dtype=str), Parameter('items', dtype=list)]
+    def run(self, plain, path, text, items) -> dict:
+        return {'plain': [type(plain).__name__, str(plain)], 'path': [type(path).__name__, str(path)],
+                'text': [type(text).__name__, str(text)], 'items': [str(x) for x in items]}
+"""
+
+
+class ParameterForms(Suite):
+    """parameters of every declared type - untyped, str, Path, list - whose configured value holds a placeholder, also
+    values that begin with `~` (a home directory, left as it is by the library): the task receives the substituted value
+    (a Path for a Path parameter), the text of the parameter in the key is the source text, and the key is the same under
+    other values of global_vars.  Runtime check only."""
+    name = 'parameter_forms'
+    model = ''
+    VALUES = ['{D}/images', '~/{D}/images', '~{D}', '~/plain', 'pre-{D}', "it's {D}"]
+
+    def gen(self, rng, tier):
+        return [dict(value=v) for v in self.VALUES]
+
+    def run_impl(self, case):
+        import sys, types
+        from pathlib import Path
+        from taskchain import Config
+        from .. import pipeline as pl
+        with pl.workspace(dict(classes=[], files={})) as (d, _):
+            name = 'tcv_paramforms'
+            m = types.ModuleType(name)
+            sys.modules[name] = m
+            try:
+                exec(compile(PARAMFORMS_SRC, name, 'exec'), m.__dict__)
+                out = []
+                for dv in ('set_a', 'other'):
+                    v = case['value']
+                    cfg = Config(Path('data'), name='c', data={'tasks': [f'{name}.Abc'], 'plain': v, 'path': v, 'text': v, 'items': [v, 1]},
+                                 global_vars={'D': dv})
+                    t = cfg.chain()['abc']
+                    # what run would receive (the stored result of the first config is what the second one loads: one key)
+                    seen = {k: t.params[k] for k in ('plain', 'path', 'text', 'items')}
+                    value = {k: ([str(x) for x in v] if k == 'items' else [type(v).__name__, str(v)]) for k, v in seen.items()}
+                    out.append(dict(text=t.params.repr, key=t.name_for_persistence, value=value))
+                return dict(runs=out)
+            finally:
+                sys.modules.pop(name, None)
+
+    def oracle(self, case, obs):
+        import re
+        if 'unexpected_exception' in obs:
+            return f'unexpected exception {obs["unexpected_exception"]}: {obs["text"]}'
+        s = case['value']
+        matched = bool(re.search(r'{(.*?)}', s))
+        one = repr(s) if matched else f"'{s}'"
+        want_text = f"items=[{one}, 1]###path={s!r}###plain={one}###text={one}"
+        for dv, o in zip(('set_a', 'other'), obs['runs']):
+            sub = s.replace('{D}', dv)
+            want_value = {'plain': ['ReprStr' if matched else 'str', sub], 'path': ['PosixPath', str(__import__('pathlib').Path(sub))],
+                          'text': ['ReprStr' if matched else 'str', sub], 'items': [sub, '1']}
+            if o['value'] != want_value:
+                return f'{case} with D={dv}: the task received {o["value"]}, expected {want_value}'
+            if o['text'] != want_text:
+                return f'{case} with D={dv}: the text of the parameters in the key is {o["text"]!r}, the source text gives {want_text!r}'
+        if obs['runs'][0]['key'] != obs['runs'][1]['key']:
+            return f'{case}: the key differs between two values of the placeholder'
+        return None
+
+    def nontrivial(self, case, obs):
+        return True
+
+    def key(self, case):
+        return repr(case)
+
+
 class C11(Prop):
     pid = 'C11'
-    suites = [Placeholders(), ConfigData(), UsesPaths(), ContextReuse(), UsedConfigObjects()]
+    suites = [Placeholders(), ConfigData(), UsesPaths(), ContextReuse(), UsedConfigObjects(), ParameterForms()]
     trusted_base = ["Python's re for the single pattern r'{(.*?)}' is modelled by an explicit scanner; "
                     'the correspondence compares them on brace/newline-heavy strings']
     assumptions = ['global_vars values are rendered with str(); attribute-object global_vars use identifier names '
